@@ -158,6 +158,7 @@ func runOpShared(name string, attrs []Attr, inputs []*TJ, outNames []string, sha
 			reuseCounter++
 			if reuseEvery > 0 && reuseCounter%reuseEvery == 0 {
 				res.Reuse = reuseProbe(name, node, inputs, res)
+				res.Probed = true
 			}
 		}
 		return res
